@@ -86,6 +86,10 @@ func (v *StructSchema) process(ctx *p.SchemaCtx) {
 			ctx.AddIssue(ctx.IssueFromUnknownError(err))
 			return
 		}
+		if newDp == nil {
+			// the factory decoded an empty record (i.e "{}"): every field is absent
+			newDp = &p.EmptyDataProvider{}
+		}
 		dataProv = newDp
 	} else {
 		newDp, err := p.TryNewAnyDataProvider(ctx.Data)
